@@ -1,5 +1,6 @@
 import Logrange.Proofs.RegistryJson
 import Logrange.Props.C19
+import Logrange.Generated.C19
 /-!
 # C19 — the registry survives a restart **through the concrete text of `pipes.dat`**
 
@@ -90,6 +91,90 @@ theorem describe_after_restart_json (acc : Pipe → Bool) (ops : List POp) (h : 
   rw [hrun]
   simp only [jrun, jstep, jopStep, withAcc, hacc, step, create, hfresh]
   simp [Reg.find]
+
+/-! ## for the definitions `CreatePipe` accepts
+
+`newPPipe` refuses a definition that is not valid UTF-8 (/repo 3cf6638; regenerated fact `newPPipeRequiresUtf8`), so the
+acceptance function of the model (`acc`, the conditions parse AND the strings are UTF-8) implies `pipeUtf8`: the hypothesis on the
+operations disappears — every history, whatever definitions the callers offer. -/
+
+/-- `newPPipe` refuses non-UTF-8 definitions: read from the source on every run -/
+theorem newPPipe_requires_utf8 : Generated.C19.newPPipeRequiresUtf8 = true := by decide
+
+/-- an operation whose definition is refused by `newPPipe` changes neither machine -/
+theorem refused_op_changes_nothing (cfg : PCfg) (acc : Pipe → Bool) (j : JState) (s : PState) (o : POp)
+    (hacc : ∀ q, acc q = true → pipeUtf8 q = true) (ho : opUtf8 o = false) :
+    (jstep cfg acc j o).1 = j ∧ (pstep cfg acc s o).1 = s := by
+  cases o with
+  | restart => simp [opUtf8] at ho
+  | crash => simp [opUtf8] at ho
+  | op o =>
+    cases o with
+    | delete n => simp [opUtf8, opU] at ho
+    | get n => simp [opUtf8, opU] at ho
+    | create q b =>
+      have hq : acc q = false := by
+        cases h : acc q with
+        | false => rfl
+        | true => have := hacc q h; simp [opUtf8, opU, this] at ho
+      constructor
+      · simp only [jstep, jopStep, withAcc, hq, step, create, savesAfter, changes]
+        cases j.mem.find q.name <;> simp
+      · simp only [pstep, opStep, withAcc, hq, step, create, savesAfter, changes]
+        cases s.mem.find q.name <;> simp
+    | ensure q b =>
+      have hq : acc q = false := by
+        cases h : acc q with
+        | false => rfl
+        | true => have := hacc q h; simp [opUtf8, opU, this] at ho
+      constructor
+      · simp only [jstep, jopStep, withAcc, hq, step, ensure, savesAfter, changes]
+        cases j.mem.find q.name with
+        | none => simp
+        | some x => simp only []; split <;> simp
+      · simp only [pstep, opStep, withAcc, hq, step, ensure, savesAfter, changes]
+        cases s.mem.find q.name with
+        | none => simp
+        | some x => simp only []; split <;> simp
+
+theorem jrun_sim_accepted (acc : Pipe → Bool) (hacc : ∀ q, acc q = true → pipeUtf8 q = true) :
+    ∀ (ops : List POp) (j : JState) (s : PState), JSim j s → JSim (jrun cfgNow acc j ops) (prun cfgNow acc s ops) := by
+  intro ops
+  induction ops with
+  | nil => intro j s h; exact h
+  | cons o os ih =>
+    intro j s h
+    simp only [jrun, prun]
+    cases ho : opUtf8 o with
+    | true => exact ih _ _ (jstep_sim cfgNow acc j s o h ho).1
+    | false =>
+      obtain ⟨e1, e2⟩ := refused_op_changes_nothing cfgNow acc j s o hacc ho
+      rw [e1, e2]; exact ih _ _ h
+
+/-- **The registry survives a clean restart through the JSON text of `pipes.dat` — for the definitions `CreatePipe` accepts**:
+whatever definitions the callers offer (any bytes), after every history a further restart or crash is not refused and leaves the
+registry that was there and the file that encodes it. `hacc`: what `newPPipe` accepts is valid UTF-8 (fact
+`newPPipe_requires_utf8`; the harness offers non-UTF-8 definitions to the real service and demands the refusal). -/
+theorem registry_survives_restart_accepted (acc : Pipe → Bool) (hacc : ∀ q, acc q = true → pipeUtf8 q = true) (ops : List POp) :
+    (jstep cfgNow acc (jrun cfgNow acc ⟨[], none⟩ ops) .restart).1.mem = (jrun cfgNow acc ⟨[], none⟩ ops).mem ∧
+    (jstep cfgNow acc (jrun cfgNow acc ⟨[], none⟩ ops) .restart).1.file = some (encPipes (jrun cfgNow acc ⟨[], none⟩ ops).mem) ∧
+    (jstep cfgNow acc (jrun cfgNow acc ⟨[], none⟩ ops) .restart).2 = none ∧
+    (jstep cfgNow acc (jrun cfgNow acc ⟨[], none⟩ ops) .crash).1.mem = (jrun cfgNow acc ⟨[], none⟩ ops).mem ∧
+    (jstep cfgNow acc (jrun cfgNow acc ⟨[], none⟩ ops) .crash).2 = none := by
+  have h0 : JSim ⟨[], none⟩ ⟨[], none⟩ := ⟨rfl, rfl, List.nodup_nil, by simp, by intro l hl; cases hl⟩
+  have hs := jrun_sim_accepted acc hacc ops _ _ h0
+  have hr := jstep_sim cfgNow acc _ _ .restart hs rfl
+  have hc := jstep_sim cfgNow acc _ _ .crash hs rfl
+  obtain ⟨pr, pc1, pc2⟩ := registry_survives_restart acc ops
+  obtain ⟨⟨hrm, hrf, _⟩, hrr⟩ := hr
+  obtain ⟨⟨hcm, _, _⟩, hcr⟩ := hc
+  rw [pr] at hrm hrf hrr
+  refine ⟨?_, ?_, ?_, ?_, ?_⟩
+  · rw [hrm]; exact hs.1.symm
+  · rw [hrf]; simp [hs.1]
+  · rw [hrr]
+  · rw [hcm, pc1]; exact hs.1.symm
+  · rw [hcr, pc2]
 
 /-- a name that is not valid UTF-8 does not survive the restart (the file holds U+FFFD instead); two such names merge —
 the byte machine against the list machine on `create ff, create fe, restart` (shared with C07: finding F-C07-902) -/
